@@ -103,12 +103,14 @@ struct Driver<'a> {
     bound: usize,
     step_cap: u32,
     part: (usize, usize),
+    salt: u64,
     deadline: Option<Instant>,
     on_exec: OnExec<'a>,
     stats: ExploreStats,
     stack: Vec<Frame>,
     root_started: bool,
     root_child_index: usize,
+    split_depth: usize,
     error: Option<String>,
     stop: bool,
     polls: u32,
@@ -205,16 +207,23 @@ impl Driver<'_> {
             }
             let (s, r) = (top.cur_step as u32, top.cur_rank as u16);
             top.cur_rank += 1;
-            if top.devs.is_empty() {
+            // Partitioning: executions above the split depth are run by every partition (and counted
+            // by partition 0 only); the children at the split depth are scattered over the
+            // partitions by a hash, everything below belongs to whoever owns the ancestor. Splitting
+            // at depth 2 (for bounds >= 3) evens out the very unequal subtree sizes.
+            let depth = top.devs.len() + 1;
+            if depth == self.split_depth {
                 let idx = self.root_child_index;
                 self.root_child_index += 1;
-                if idx % self.part.1 != self.part.0 {
+                let h = ((idx as u64).wrapping_add(self.salt)).wrapping_mul(0x9E37_79B9_7F4A_7C15);
+                if ((h >> 33) as usize) % self.part.1 != self.part.0 {
                     continue;
                 }
             }
+            let counted = depth >= self.split_depth || self.part.0 == 0;
             let mut devs = top.devs.clone();
             devs.push((s, r));
-            self.begin(devs, s + 1, true);
+            self.begin(devs, s + 1, counted);
             return true;
         }
     }
@@ -416,6 +425,7 @@ pub fn explore<'a, F>(
     bound: usize,
     step_cap: u32,
     part: (usize, usize),
+    salt: u64,
     deadline: Option<Instant>,
     only: Option<Vec<Dev>>,
     body: F,
@@ -433,12 +443,14 @@ where
         bound,
         step_cap,
         part,
+        salt,
         deadline,
         on_exec,
         stats: ExploreStats { by_depth: vec![0; bound.max(only.as_ref().map_or(0, |d| d.len())) + 1], ..Default::default() },
         stack: Vec::with_capacity(bound + 1),
         root_started: false,
         root_child_index: 0,
+        split_depth: if bound >= 3 { 2 } else { 1 },
         error: None,
         stop: false,
         polls: 0,
